@@ -25,10 +25,10 @@ func init() {
 
 // reviewedPanics: (function, guard descriptor) -> invariant. The message text is not part of the key.
 var reviewedPanics = map[string]string{
-	"Func.callGraph|not a value-converter":   "only requirement vertices (out-edges of the target: value/typedArg) that were pruned, and supplied inputs (value/typedOut), reach the assertion; every label-carrying kind implements value() (checked mechanically below)",
-	"Func.reachTarget|not a value-converter": "the asserted vertex is a requirement of the function being resolved that is not the root (root requirements are skipped earlier): value or typedArg, which implement value()",
-	"Func.reachTarget|final value invalid":   "a chosen path ends at the requirement and every arm of the walk forwards the last seen value (rule ORDER: snapshot after update); reviewed after the fix of the stale-snapshot defect",
-	"Func.Redefine$1|struct walker error":    "the walked type is the reflect.StructOf result built by the planner: a struct, zero pointers — neither rejection of the struct walker can trigger",
+	"graphBuilder|not a value-converter":   "only requirement vertices (out-edges of the target: value/typedArg) that were pruned, and supplied inputs (value/typedOut), reach the assertion; every label-carrying kind implements value() (checked mechanically below)",
+	"resolver|not a value-converter": "the asserted vertex is a requirement of the function being resolved that is not the root (root requirements are skipped earlier): value or typedArg, which implement value()",
+	"resolver|final value invalid":   "a chosen path ends at the requirement and every arm of the walk forwards the last seen value (rule ORDER: snapshot after update); reviewed after the fix of the stale-snapshot defect",
+	"Redefine-closure|struct walker error":    "the walked type is the reflect.StructOf result built by the planner: a struct, zero pointers — neither rejection of the struct walker can trigger",
 	"MustFunc|caller-requested":              "panics by contract; not reachable from Call/Convert/Redefine (checked below)",
 	"Graph.KahnSort|cycle":                   "panics by contract on cyclic graphs (property C20); not reachable from Call/Convert/Redefine (checked below)",
 }
@@ -276,7 +276,7 @@ func keysOf(m map[int64]bool) []int64 {
 }
 
 func (c *Ctx) tablePanic(name, desc, pos string, reachable bool) {
-	key := name + "|" + desc
+	key := c.panicRole(name) + "|" + desc
 	why, ok := reviewedPanics[key]
 	if ok && (desc == "caller-requested" || desc == "cycle") {
 		// by-contract panics must not be reachable from Call/Convert/Redefine
@@ -514,4 +514,56 @@ func (c *Ctx) classifyFieldName(f *ssa.Function, v ssa.Value, ap *ssa.Call) (str
 		return "name projection without a uniqueness guard", false
 	}
 	return "unrecognised call", false
+}
+
+// panicRole maps a function (display name) to the role name used as table key, so that renaming or
+// extracting a helper does not change the key: the resolver, the graph builder, the generated function of
+// Redefine, or — for a helper whose in-target callers all have one of those roles — the callers' role.
+func (c *Ctx) panicRole(name string) string {
+	p := c.P
+	var f *ssa.Function
+	for _, g := range p.Funcs {
+		if core.FuncName(g) == name {
+			f = g
+		}
+	}
+	if f == nil {
+		return name
+	}
+	roleOf := func(g *ssa.Function) string {
+		for _, r := range []string{"graphBuilder", "resolver", "planner"} {
+			if p.MustRole(r) == g {
+				return r
+			}
+		}
+		if rd := p.MustRole("Redefine"); rd != nil && g.Parent() == rd {
+			return "Redefine-closure"
+		}
+		return ""
+	}
+	if r := roleOf(f); r != "" {
+		return r
+	}
+	// helper: all callers share roles
+	roles := map[string]bool{}
+	for _, cs := range p.Callers(f) {
+		r := roleOf(core.Outer(cs.Parent()))
+		if r == "" && cs.Parent() != nil {
+			r = roleOf(cs.Parent())
+		}
+		if r == "" {
+			return name
+		}
+		roles[r] = true
+	}
+	if len(roles) == 0 {
+		return name
+	}
+	// a helper shared by the graph builder and the resolver keeps both invariants; use either key
+	for _, r := range []string{"resolver", "graphBuilder", "Redefine-closure", "planner"} {
+		if roles[r] {
+			return r
+		}
+	}
+	return name
 }
